@@ -36,10 +36,11 @@ type ReqSpec struct {
 	N      int    `json:"n"`
 	Method string `json:"method"`
 	Match  bool   `json:"match"`
-	Code   int    `json:"code"`  // 0 = no explicit WriteHeader
-	Body   bool   `json:"body"`  // handler writes a body
-	Panic  string `json:"panic"` // "" | before | afterheader | afterbody
-	PV     string `json:"pv"`    // panic value kind
+	Code   int    `json:"code"`           // 0 = no explicit WriteHeader
+	Body   bool   `json:"body"`           // handler writes a body
+	Copy   bool   `json:"copy,omitempty"` // the body is written with io.Copy from a plain io.Reader (may take a ReaderFrom fast path)
+	Panic  string `json:"panic"`          // "" | before | afterheader | afterbody
+	PV     string `json:"pv"`             // panic value kind
 	Remote string `json:"remote,omitempty"`
 }
 
@@ -48,11 +49,15 @@ func (r ReqSpec) uri() string {
 	if r.Match {
 		base = "/h/"
 	}
-	return fmt.Sprintf("%s%d?code=%d&body=%v&panic=%s&pv=%s", base, r.N, r.Code, r.Body, r.Panic, r.PV)
+	return fmt.Sprintf("%s%d?code=%d&body=%v&copy=%v&panic=%s&pv=%s", base, r.N, r.Code, r.Body, r.Copy, r.Panic, r.PV)
 }
 
 // panicsBeforeWrite: does the handler panic before any status was written?
 func (r ReqSpec) panics() bool { return r.Match && r.Panic != "" }
+
+// excluded: the handler panics with http.ErrAbortHandler itself, the one value the statement
+// excludes. Nothing is required of such a request; the requests after it are judged as usual.
+func (r ReqSpec) excluded() bool { return r.panics() && r.PV == "abort" }
 func (r ReqSpec) panicsBeforeWrite() bool {
 	if !r.panics() {
 		return false
@@ -110,11 +115,17 @@ func panicValue(kind string) any {
 		return errors.Join(errors.New("first"), http.ErrAbortHandler)
 	case "aborttext":
 		return errors.New(http.ErrAbortHandler.Error())
+	case "abort":
+		return http.ErrAbortHandler
 	}
 	return nil // "nil": panic(nil) → *runtime.PanicNilError
 }
 
-var pvKinds = []string{"string", "error", "wrapped", "int", "struct", "pointer", "nilptr", "bytes", "nil", "wrapabort", "joinabort", "aborttext"}
+var pvKinds = []string{"string", "error", "wrapped", "int", "struct", "pointer", "nilptr", "bytes", "nil", "wrapabort", "joinabort", "aborttext", "abort"}
+
+type onlyReader struct{ r io.Reader }
+
+func (o onlyReader) Read(p []byte) (int, error) { return o.r.Read(p) }
 
 // recovered value as the Relay sees it
 func recoveredValue(kind string) any {
@@ -139,7 +150,11 @@ func behave(s *httpd.Store) {
 		panic(panicValue(pv))
 	}
 	if body {
-		s.W.Write([]byte("hello"))
+		if q.Get("copy") == "true" {
+			io.Copy(s.W, onlyReader{strings.NewReader("hello")})
+		} else {
+			s.W.Write([]byte("hello"))
+		}
 	}
 	if pw == "afterbody" {
 		panic(panicValue(pv))
@@ -166,8 +181,8 @@ type rec struct {
 }
 
 type stats struct {
-	requests, beg, end, errRecs, panics, wire, direct, status500 int64
-	maxInflight                                                  int64
+	requests, beg, end, errRecs, panics, wire, direct, status500, excluded int64
+	maxInflight                                                            int64
 }
 
 func parseRecord(kind string, pl []byte) (rec, error) {
@@ -367,7 +382,9 @@ func runCase(cs Case, st *stats) (key, expected, observed string) {
 		defer inflight.Add(-1)
 		defer func() {
 			if r := recover(); r != nil {
-				escaped.Add(1)
+				if r != http.ErrAbortHandler { // may be passed on: net/http aborts the response
+					escaped.Add(1)
+				}
 				panic(r)
 			}
 		}()
@@ -475,6 +492,10 @@ func runCase(cs Case, st *stats) (key, expected, observed string) {
 	// the wire log
 	for i, rq := range cs.Reqs {
 		kk := fmt.Sprintf("%s:%s", tag, specKey(rq))
+		if rq.excluded() {
+			st.excluded++
+			continue
+		}
 		if results[i].err != "" {
 			return "client:" + kk, "request completes", results[i].err
 		}
@@ -504,6 +525,9 @@ func runCase(cs Case, st *stats) (key, expected, observed string) {
 			return "orphan:" + tag, "every REQ_END / Error record carries the id of a request that logged REQ_BEG", clipS(r.raw, 400)
 		}
 		rq := cs.Reqs[i]
+		if rq.excluded() {
+			return "", "", ""
+		}
 		kk := fmt.Sprintf("%s:%s", tag, specKey(rq))
 		switch r.kind {
 		case "END":
@@ -540,6 +564,10 @@ func runCase(cs Case, st *stats) (key, expected, observed string) {
 			rq := cs.Reqs[i]
 			kk := fmt.Sprintf("%s:%s", tag, specKey(rq))
 			pr[i].beg++
+			if rq.excluded() {
+				tidOwner[r.tid] = i
+				continue
+			}
 			if pr[i].beg > 1 {
 				return "beg-dup:" + kk, "exactly one REQ_BEG per request", clipS(r.raw, 300)
 			}
@@ -598,6 +626,9 @@ func runCase(cs Case, st *stats) (key, expected, observed string) {
 	npanic := 0
 	for i, rq := range cs.Reqs {
 		kk := fmt.Sprintf("%s:%s", tag, specKey(rq))
+		if rq.excluded() {
+			continue
+		}
 		if rq.panics() {
 			npanic++
 		}
@@ -626,7 +657,7 @@ func runCase(cs Case, st *stats) (key, expected, observed string) {
 		// multiset of renderings
 		left := map[string]int{}
 		for _, rq := range cs.Reqs {
-			if rq.panics() {
+			if rq.panics() && !rq.excluded() {
 				left[rq.PV]++
 			}
 		}
@@ -667,7 +698,7 @@ func runCase(cs Case, st *stats) (key, expected, observed string) {
 }
 
 func specKey(r ReqSpec) string {
-	return fmt.Sprintf("%s,match=%v,code=%d,body=%v,panic=%s,pv=%s", r.Method, r.Match, r.Code, r.Body, r.Panic, r.PV)
+	return fmt.Sprintf("%s,match=%v,code=%d,body=%v,copy=%v,panic=%s,pv=%s", r.Method, r.Match, r.Code, r.Body, r.Copy, r.Panic, r.PV)
 }
 
 func clipS(s string, n int) string {
@@ -732,7 +763,7 @@ func productReqs() []ReqSpec {
 							continue // an unmatched route has no behaviour
 						}
 						n++
-						out = append(out, ReqSpec{N: n, Method: methodsPool[n%len(methodsPool)], Match: match, Code: code, Body: body, Panic: pw, PV: pv, Remote: remotes[n%len(remotes)]})
+						out = append(out, ReqSpec{N: n, Method: methodsPool[n%len(methodsPool)], Match: match, Code: code, Body: body, Copy: body && n%2 == 0, Panic: pw, PV: pv, Remote: remotes[n%len(remotes)]})
 					}
 				}
 			}
@@ -748,6 +779,7 @@ func randReqs(r *rand.Rand, n int) []ReqSpec {
 		if rq.Match {
 			rq.Code = codes[r.Intn(len(codes))]
 			rq.Body = r.Intn(2) == 0
+			rq.Copy = rq.Body && r.Intn(2) == 0
 			if r.Intn(2) == 0 {
 				rq.Panic = panicsWhen[1+r.Intn(3)]
 				rq.PV = pvKinds[r.Intn(len(pvKinds))]
@@ -818,6 +850,7 @@ func (mn mon) Run(sh drv.Shard, c *drv.Ctx) {
 	c.Add("error_records", st.errRecs)
 	c.Add("handler_panics", st.panics)
 	c.Add("responses_500", st.status500)
+	c.Add("requests_aborting_with_ErrAbortHandler(not_judged)", st.excluded)
 	c.MaxOf("requests_in_flight", st.maxInflight)
 }
 
